@@ -250,11 +250,24 @@ func runC12(ch *Choices, cfg *RunCfg) (o *Outcome) {
 	}
 	nforeign := ch.Range(1, 4, "nforeign")
 	for i := 0; i < nforeign; i++ {
-		if ch.Intn(3, "foreign.kind") == 0 {
+		switch ch.Pick([]int{35, 30, 15, 20}, "foreign.kind") {
+		case 0:
+			sh.foreign = append(sh.foreign, foreignEvolvedObject(ch))
+		case 1:
 			b, _, _ := foreignStream(ch, false)
 			sh.foreign = append(sh.foreign, b)
-		} else {
-			sh.foreign = append(sh.foreign, foreignEvolvedObject(ch))
+		case 2:
+			// a hostile peer (kept small: the point here is shared state, not cost)
+			b, _, _ := hostileStreamN(ch)
+			if len(b) > 3000 {
+				b = b[:3000]
+			}
+			sh.foreign = append(sh.foreign, b)
+		default:
+			// a damaged message (built without any library call: the library must stay cold until the tasks run)
+			b, _, _ := foreignStream(ch, false)
+			b, _, _ = ApplyPlan(b, c14DrawPlan(ch, len(b), nil))
+			sh.foreign = append(sh.foreign, b)
 		}
 	}
 	pair := ch.Intn(2, "inst.pair") == 1
